@@ -327,8 +327,11 @@ def check (params : List String) (lines : List String) : CaseResult := Id.run do
     rtSpecs := rawDiff "" "" o r
   if kind == "engine" then
     -- engine behaviour, original versus re-parsed
-    let eo := a.eo.reverse
-    let er := a.er.reverse
+    -- the `done` flag (cease-flow trace seen) is not compared: whether an instance reports completion is C02's
+    -- property, and the completion monitor can miss the start event under load (known finding of C02), which
+    -- would make the comparison flaky for a reason that has nothing to do with the XML round trip
+    let eo := a.eo.reverse.filter (fun x => !x.startsWith "done")
+    let er := a.er.reverse.filter (fun x => !x.startsWith "done")
     if eo != er then
       let caused := rtSpecs.any (·.startsWith "formal_expression_became_informal:")
       let sig := if caused then "engine_behaviour_differs_formal_became_informal:" else "engine_behaviour_differs:"
